@@ -297,7 +297,11 @@ func (f ConsFamilies) Light() ConsFamilies {
 		}
 		g.Rounds = append(g.Rounds, r)
 	}
-	g.Sleepers = f.Sleepers
+	for _, sl := range f.Sleepers {
+		if !sl.OnlyLate {
+			g.Sleepers = append(g.Sleepers, sl)
+		}
+	}
 	g.NoCorpus = f.NoCorpus
 	g.Then = f.Then // later stages (thorough tier only) stay complete
 	return g
@@ -354,6 +358,9 @@ func defaultConsFamilies(quick bool, byzantine bool) ConsFamilies {
 			{W: WV(1, 1, 1, 1), Epoch: 1, MinSleep: 3, MaxSleep: 4, Tail: 4, Forks: true, Rots: 1},
 			// split votes on the first frame (one validator misses another's first event) + a sleeper
 			{W: WV(1, 1, 1, 1), Epoch: 1, MinSleep: 2, MaxSleep: 4, Tail: 4, DropInFirstRound: true, Rots: 2},
+			// a fork during the sleeping phase whose two siblings are roots of one frame and vote differently
+			// (one of them lacks one validator's tip), while an election is still open
+			{W: WV(1, 1, 1, 1), Epoch: 1, MinSleep: 2, MaxSleep: 2, Tail: 4, Forks: true, LateForks: true, LateForkMin: 2, LateForkMax: 2, OnlyLate: true, Rots: 1},
 		}
 		if byzantine {
 			// two light forkers whose canonical order (by weight) is not their ID order, heavy honest validators
@@ -395,6 +402,8 @@ func defaultConsFamilies(quick bool, byzantine bool) ConsFamilies {
 			{W: WV(1, 1, 1, 1), Epoch: 1, MinSleep: 3, MaxSleep: 6, Tail: 5, Forks: true},
 			{W: WV(1, 1, 1, 1), Epoch: 1, MinSleep: 2, MaxSleep: 5, Tail: 5, DropInFirstRound: true},
 			{W: WV(2, 1, 1, 1), Epoch: 1, MinSleep: 2, MaxSleep: 4, Tail: 4, DropInFirstRound: true, Rots: 2},
+			{W: WV(1, 1, 1, 1), Epoch: 1, MinSleep: 1, MaxSleep: 3, Tail: 4, Forks: true, LateForks: true, LateForkMin: 1, LateForkMax: 3, OnlyLate: true, Rots: 2},
+			{W: WV(2, 1, 1, 1), Epoch: 1, MinSleep: 2, MaxSleep: 3, Tail: 4, Forks: true, LateForks: true, LateForkMin: 1, LateForkMax: 3, OnlyLate: true, Rots: 1},
 		}
 		if byzantine {
 			all(WV(1, 1, 1), 6, 2, false)
